@@ -154,8 +154,8 @@ impl Ctx {
         let supported = data.first().map(|h| ((h >> 2) & 31) <= max_height(*h)).unwrap_or(true);
         // keep the real BitSet small: a filled node near the root would allocate 2^23 pages
         if let (Some(s), true) = (&spec, supported) {
-            if count(&spec_clip(&s.ranges, bias, max)) > (1 << 25) {
-                max = max.min(bias.saturating_add(1 << 22));
+            if count(&spec_clip(&s.ranges, bias, max)) > (1 << 21) {
+                max = max.min(bias.saturating_add(1 << 19));
                 self.st.count("dec.max_clamped_for_memory");
             }
         }
